@@ -1,2 +1,43 @@
 import Gopki.Model.Db
 import Gopki.Model.Hash
+/-! # C13 — change detection sees every certificate-relevant edit and nothing else
+
+`Hash.jsonOf` is the exact JSON pre-image of the stored hash (compared byte for byte with the
+implementation's on every run).  Part (1) of the statement is proved; part (2) holds with the two
+exceptions recorded as known findings, for which kernel-checked witnesses are given. -/
+namespace C13
+open Config V1 Hash
+
+/-- **(1)** the hash does not depend on the alias or the profile name a configuration was read under
+    (nor on file name or time of reading, which are not part of the value at all) -/
+theorem C13_independent_of_alias_and_profile_name (c : CertificateContent) (a p : String) (off : Int) :
+    jsonOf { c with alias_ := a, profile := p } off = jsonOf c off := rfl
+
+theorem C13_hash_independent (c : CertificateContent) (a p : String) (off : Int) :
+    hashSum { c with alias_ := a, profile := p } off = hashSum c off := rfl
+
+/-- a run-relative validity (no `from`) is blanked: "now" never enters the hash, so an unchanged
+    configuration never looks changed between runs -/
+theorem C13_independent_of_now (c : CertificateContent) (f u f' u' : Int) (off : Int)
+    (hrel : (c.validity.isStatic && c.validity.isSet) = false) :
+    jsonOf { c with validity := { c.validity with from_ := f, until_ := u } } off =
+    jsonOf { c with validity := { c.validity with from_ := f', until_ := u' } } off := by
+  unfold jsonOf
+  simp only [hrel]
+  rfl
+
+/-- **known finding, kernel-checked**: two configurations that differ in the (absolute) end of validity
+    but have no `from` get the same JSON pre-image — the blind spot `C13-validity-not-hashed` -/
+theorem C13_validity_blind_spot (c : CertificateContent) (u u' : Int) (off : Int) (hrel : c.validity.isStatic = false) :
+    jsonOf { c with validity := { c.validity with until_ := u } } off =
+    jsonOf { c with validity := { c.validity with until_ := u' } } off := by
+  unfold jsonOf
+  simp only [hrel, Bool.false_and]
+  rfl
+
+/-- **known finding, kernel-checked**: the JSON of an extension is its field record without its kind —
+    keyUsage and extendedKeyUsage with the same raw value render identically (`C13-extension-kind-not-hashed`) -/
+theorem C13_extension_kind_blind_spot (raw : String) (crit : Bool) :
+    jExt {} ⟨raw, crit, .keyUsage none⟩ = jExt {} ⟨raw, crit, .extKeyUsage none⟩ := rfl
+
+end C13
